@@ -59,17 +59,18 @@ def check_message(m):
         ref = gens.ref_message(m)
     except Exception as e:
         raise AssertionError(f"reference encoder failed on generated case: {e!r}")
-    try:
-        msg = gens.build_message(m)
-    except (Exception,) + errors as e:
-        return "discard", f"construction refused: {type(e).__name__}", []
-    vs = []
-    try:
-        got = msg.dump()
-        got2 = bytes(msg)
-        glen = msg.header.get_length()
-    except (Exception,) + errors as e:
-        return "ok", None, [V("dump() of a constructed message raises", f"dump-raises/{type(e).__name__}/{m['how']}", repr(e))]
+    with common.process_tz(m.get("tz")):
+        try:
+            msg = gens.build_message(m)
+        except (Exception,) + errors as e:
+            return "discard", f"construction refused: {type(e).__name__}", []
+        vs = []
+        try:
+            got = msg.dump()
+            got2 = bytes(msg)
+            glen = msg.header.get_length()
+        except (Exception,) + errors as e:
+            return "ok", None, [V("dump() of a constructed message raises", f"dump-raises/{type(e).__name__}/{m['how']}", repr(e))]
     if got2 != got:
         vs.append(V("bytes(msg) == msg.dump()", "bytes-vs-dump", ""))
     if got != ref:
@@ -93,11 +94,12 @@ def check_message(m):
     return "ok", None, vs
 
 
-def check_avp(node):
+def check_avp(node, tz=None):
     errors = common.lib_errors()
     ref = gens.ref_node(node)
     try:
-        o = gens.build_node(node)
+        with common.process_tz(tz):
+            o = gens.build_node(node)
     except (Exception,) + errors as e:
         return "discard", f"construction refused: {node.get('cls', 'generic')}: {type(e).__name__}", []
     try:
@@ -118,7 +120,7 @@ def check_avp(node):
 
 def run_case(case):
     if case.get("kind") == "avp":
-        return check_avp(case["node"])[2]
+        return check_avp(case["node"], case.get("tz"))[2]
     if case.get("kind") == "typed":
         from . import c09
         return c09.check_encoding(case)
@@ -142,17 +144,22 @@ def _collect(shard, seed, n_msgs, sweep_vals):
     rows = refdict.rows()
 
     def body2(case):
-        status, why, vs = check_avp(case["node"])
+        status, why, vs = check_avp(case["node"], case.get("tz"))
         feats = gens.node_features([case["node"]])
+        if case.get("tz") and row_type.get(case["node"]["cls"]) == "Time":
+            feats = feats | {"time-under-non-default-tz"}
         col.record(case, vs, nontrivial=bool(feats & NT) and status == "ok",
-                   classes=["sweep"] + sorted(f for f in feats if f.startswith("res") or f in ("vendor+padded", "nested+padded", "depth>=3")),
+                   classes=["sweep"] + sorted(f for f in feats if f.startswith("res") or f in ("vendor+padded", "nested+padded", "depth>=3",
+                                                                                              "time-under-non-default-tz")),
                    discard=why)
         col.classes["cls:" + case["node"]["cls"]] += 1
 
+    row_type = {r["cls"]: r["type"] for r in rows}
     for i, row in enumerate(rows):
         if i % max(1, NSHARDS[0]) != shard:
             continue
-        strat = gens.dict_node(row["cls"], 3).map(lambda n: {"kind": "avp", "node": n})
+        strat = st.builds(lambda n, tz: {"kind": "avp", "node": n, "tz": tz}, gens.dict_node(row["cls"], 3),
+                          st.sampled_from(([None] + common.TZS) if row["type"] in ("Time", "Grouped") else [None]))
         common.hyp_collect(strat, body2, sweep_vals, seed + i)
     return col
 
@@ -182,13 +189,13 @@ def main(ctx):
     for path, rec in common.load_replays(PID):
         col.record(rec["case"], run_case(rec["case"]), nontrivial=True, classes=["replay"])
     ctx.required_classes = ["padded", "vendor", "nested", "depth>=3", "same-name-twice", "generic", "vendor+padded",
-                            "nested+padded", "res0", "res1", "res2", "res3", "sweep", "typed"]
+                            "nested+padded", "res0", "res1", "res2", "res3", "sweep", "typed", "time-under-non-default-tz"]
     ctx.assumptions = ["in-domain values per class as tabled in vf/gens.py (DESIGN C01); constructions the library refuses "
                        "are counted as discards, not judged", "reference dictionary ref/avp_dictionary.json supplies code/vendor/default flags"]
 
     def shrinker(sig, case):
         if case.get("kind") == "avp":
-            strat = gens.dict_node(case["node"]["cls"], 3).map(lambda n: {"kind": "avp", "node": n})
+            strat = gens.dict_node(case["node"]["cls"], 3).map(lambda n: {"kind": "avp", "node": n, "tz": case.get("tz")})
         elif case.get("kind") == "typed":
             return case
         else:
